@@ -458,7 +458,10 @@ class Min(MulVarFunc):
 
     @classmethod
     def eval(cls, x, y):
-        return x * LessThan(x, y) + y * (1 - LessThan(x, y))
+        # y * (1 - LessThan(x, y)) would be distributed by sympy if y is a number, and its constant part then merges with
+        # other constants of the equation: Min(3 * z, 1e18) - 1 became 3*z*[3z<1e18] - 1e18*[3z<1e18] + 1e18, which is 0 in
+        # floating point. Not(.) is the same mask and keeps the product together.
+        return x * LessThan(x, y) + y * Not(LessThan(x, y))
 
 
 class In(MulVarFunc):
